@@ -278,11 +278,14 @@ func (y *YangType) Equal(t *YangType) bool {
 		!tsEqual(y.Type, t.Type),
 		!cmp.Equal(y.Enum, t.Enum, cmp.Comparer(func(t, u EnumType) bool {
 			return cmp.Equal(t.unique, u.unique) && cmp.Equal(t.ToInt, u.ToInt) && cmp.Equal(t.ToString, u.ToString)
+		})),
+		!cmp.Equal(y.Bit, t.Bit, cmp.Comparer(func(t, u EnumType) bool {
+			return cmp.Equal(t.unique, u.unique) && cmp.Equal(t.ToInt, u.ToInt) && cmp.Equal(t.ToString, u.ToString)
 		})):
 
 		return false
 	}
-	// TODO(borman): Base, Bit
+	// TODO(borman): Base
 	return true
 }
 
